@@ -19,7 +19,16 @@ def describe(e):
 
 
 def run(ctx):
-    ctx.assumptions += [
+    run_polyeval(ctx)
+
+
+def run_polyeval(ctx, frame=False):
+    """frame=True is the C09 phase: a seeded sixth of the shapes, validated against the frame condition only."""
+    tmod = 'PolyFrameTrace' if frame else 'PolyEvalTrace'
+    if frame:
+        ctx.assumptions += ["polynomial evaluators (bgv and ckks): a seeded share of the C13 shapes; the ciphertext, polynomial / polynomial-vector and power-basis arguments are digested before and after, and every call is repeated on the same evaluator"]
+    else:
+      ctx.assumptions += [
         "bgv: t=97, 16 slots, six 42..56-bit moduli, standard and scale-invariant mode; ckks: 8 slots sparse on N=2^10 (standard and conjugate-invariant ring), six moduli, scale 2^45",
         "TLC enumerates every shape: degree 0..15, monomial / Chebyshev (interval [-1,1]) basis, general / odd / even with the parity flags set, zeroed leading and linear coefficient, single polynomial / two-polynomial vector with a third of the slots unmapped / precomputed power basis, input level one below / exactly / above the documented depth, default and non-default target scale",
         "coefficients are seeded: uniform mod t (bgv), integers in [-3,3] (ckks); ckks inputs are half-integers in [-1,1] so the exact value is a dyadic rational TLC computes; tolerance 2^-10",
@@ -43,6 +52,10 @@ def run(ctx):
             import random
             rnd = random.Random(int(ctx.seed))
             cfgs = [c for c in cfgs if rnd.random() < 0.34 or json.loads(c)['deg'] in (0, 1, 4, 8)]
+        if frame:
+            import random
+            rnd = random.Random(int(ctx.seed) + 9)
+            cfgs = [c for c in cfgs if rnd.random() < (0.17 if ctx.quick else 0.5)]
     log("[c13] %d shapes" % len(cfgs))
     d = scratch('c13')
 
@@ -65,15 +78,20 @@ def run(ctx):
     kre = [k['signature_re'] for k in ctx.known if k.get('signature_re')]
     known_evs = [e for e in evs if any(_re.fullmatch(r, sig_of(e)) for r in kre)]
     other = [e for e in evs if not any(_re.fullmatch(r, sig_of(e)) for r in kre)]
-    rej, stats = validate_programs(d, 'MC_PolyEvalTrace', 'PolyEvalTrace', {}, TRACE_CFG, other, max_rounds=15, chunks=NCPU - 2, sigfn=sig_of)
+    rej, stats = validate_programs(d, 'MC_' + tmod, tmod, {}, TRACE_CFG, other, max_rounds=15, chunks=NCPU - 2, sigfn=sig_of)
     ctx.add_trace_stats(stats, len(other))
     if known_evs:   # recorded findings are re-observed in a run of their own so that they cannot exhaust the rejection budget
-        rej2, stats2 = validate_programs(scratch('c13-known'), 'MC_PolyEvalTrace', 'PolyEvalTrace', {}, TRACE_CFG, known_evs, max_rounds=400, chunks=4, sigfn=sig_of)
+        rej2, stats2 = validate_programs(scratch('c13-known'), 'MC_' + tmod, tmod, {}, TRACE_CFG, known_evs, max_rounds=400, chunks=4, sigfn=sig_of)
         ctx.add_trace_stats(stats2, len(known_evs))
         rej += rej2
-    ctx.cov['programs'] = len(evs)
-    ctx.cov['distinct_nontrivial'] = len(set(json.dumps(e['cfg'], sort_keys=True) for e in evs))
-    ctx.cov['rule'] = "one event per evaluation; distinct by shape record"
+    ctx.cov['programs'] = ctx.cov.get('programs', 0) + len(evs)
+    nd = len(set(json.dumps(e['cfg'], sort_keys=True) for e in evs))
+    if frame:
+        ctx.cov['distinct_nontrivial'] = ctx.cov.get('distinct_nontrivial', 0) + nd
+        ctx.cov['rule'] = ctx.cov.get('rule', '') + " polynomial evaluations: one event per shape of spec/PolyEvalGen.tla, validated against FrameOK of spec/PolyEval.tla."
+    else:
+        ctx.cov['distinct_nontrivial'] = nd
+        ctx.cov['rule'] = "one event per evaluation; distinct by shape record"
     for e in (evs[len(evs) // 3], evs[-20 if len(evs) > 20 else 0]):
         ctx.sample({k: v for k, v in e.items() if k not in ('prog', 'fork', 'indep')})
     for x in rej:
